@@ -130,6 +130,32 @@ func (s *scheduler) block(cond func() bool, what string) {
 	me.state, me.cond = 0, nil
 }
 
+// runOthers lets every other ready thread run until it blocks or finishes
+// (used when an event such as a context cancellation wakes goroutines that in
+// a real execution react promptly).
+func (s *scheduler) runOthers() {
+	if s.symbolic {
+		return // under symbolic scheduling the interleaving is chosen at yield points
+	}
+	for n := 0; n < 64; n++ {
+		var t *thread
+		for _, c := range s.threads {
+			if c != s.cur && s.ready(c) && c.state == 1 {
+				t = c
+				break
+			}
+		}
+		if t == nil {
+			return
+		}
+		// the woken thread hands the baton back when it blocks or finishes
+		saved := t.parent
+		t.parent = s.cur
+		s.transfer(t)
+		t.parent = saved
+	}
+}
+
 // yield is a scheduling point: under symbolic scheduling another runnable
 // thread may be chosen (bounded number of preemptions).
 func (s *scheduler) yield(what string) {
